@@ -60,6 +60,11 @@ CLAIMED = {
   text='Decides: for all 4^5 (quick) / 5^6 (thorough) hash assignments of an insertion history starting at capacity 4, every key stays retrievable with its own value across growth and absent keys stay absent, with len/cap bookkeeping intact; hash() reads exactly the key bytes; string-pool keys cover all bytes of the literal; tags and ordinary identifiers use separate tables; scope-chain lookups stop at the innermost hit; the 17-row tag shadowing table of tagspec. Histories of 10^5 operations and prototype-scope handling in declarators are NOT decided.',
   note='Trusts clang 14 front end, lib/eai.py, the table-allocation and scripted-token models in props/c16.py. Capacity 2 is excluded: the growth rule leaves no free slot there, but no call site uses it (rule C16.b checks every mapinit constant).',
   design='5/C16'),
+ 'C12': dict(
+  technique='abstract interpretation of pp.c (next/expand/expandfunc/ctxnext/define/undef/macroequal/stringize/directive, real map.c underneath) with a scripted token source; differential comparison of the resulting token sequence with a reference C11 6.10.3 hide-set expander over a generated family of macro sets and invocation forms',
+  text='Decides on a generated family (19 macro definitions x 49 invocation forms, 21 redefinition pairs, 18 directive forms; finite, not exhaustive): the expanded token sequence (kinds and spellings incl. stringification) equals the reference expander; ill-formed invocations are diagnosed; redefinitions are accepted iff identical; unimplemented directives and ## are rejected; at end of input no macro is left hidden and the expansion depth is 0. Cases C11 leaves unspecified (invocation completed beyond the rescanned list) are excluded from generation.',
+  note='Trusts clang 14 front end, lib/eai.py, the array/scan models and the reference expander in props/c12.py. One known finding (extra empty trailing argument accepted).',
+  design='5/C12'),
  'C01': dict(
   technique='abstract interpretation (partial evaluation of the lowering functions over the static type/operator descriptor domain) + AST table extraction vs C11/QBE oracle tables',
   text='Decides structural clauses only: the instruction-selection, conversion, load/store, truthiness and bit-field shift tables that every compiled program is lowered through are extracted from the current source by an abstract interpreter and compared exhaustively (over the finite descriptor domain) with oracle tables written from C11 and the QBE manual; sibling switches are checked for exhaustiveness. Semantic equivalence of emitted IL for arbitrary programs is NOT decided.',
